@@ -9,7 +9,7 @@ use crate::gram::{db, AInst, AOp, AVal, K};
 use crate::model::{NumTy, TypeModel, Width};
 use crate::util::Rng;
 
-pub const N_VARIANTS: u64 = 11;
+pub const N_VARIANTS: u64 = 12;
 
 pub const IMPORT_NAMES: &[&str] = &[
     "GLSL.std.450",
@@ -263,11 +263,21 @@ pub fn scale_module(rng: &mut Rng, variant: u64) -> (String, Vec<AInst>) {
             for _ in 0..rng.range(1, 3) {
                 let (f, l) = (fresh(), fresh());
                 open_fn(&mut v, f, l);
+                // values defined inside an earlier function's body are candidates too (the width is decided by
+                // what precedes the consumer in the binary, not by scopes)
+                for _ in 0..rng.below(3) {
+                    let tid = *rng.pick(&tids);
+                    let c = fresh();
+                    let inst = if rng.chance(1, 2) { AInst::named("Undef", Some(tid), Some(c), vec![]) } else { AInst::named("IAdd", Some(tid), Some(c), vec![AOp::id(*rng.pick(&vals)), AOp::id(*rng.pick(&vals))]) };
+                    model.observe(&inst);
+                    v.push(inst);
+                    vals.push(c);
+                }
                 close_fn(&mut v);
             }
             let (f, l) = (fresh(), fresh());
             open_fn(&mut v, f, l);
-            let sel = *rng.pick(&vals);
+            let sel = if rng.chance(1, 2) { *vals.last().unwrap() } else { *rng.pick(&vals) };
             let mut ops = vec![AOp::id(sel), AOp::id(fresh())];
             for _ in 0..rng.range(1, 3) {
                 ops.push(AOp { kind: K::LiteralContextDependentNumber, val: literal_for(&model, sel, rng).unwrap() });
@@ -276,6 +286,70 @@ pub fn scale_module(rng: &mut Rng, variant: u64) -> (String, Vec<AInst>) {
             v.push(AInst::named("Switch", None, None, ops));
             v.push(AInst::named("FunctionEnd", None, None, vec![]));
             ("switch in a later function on a module-scope value".to_string(), v)
+        }
+        11 => {
+            // very many typed values (module scope and inside an earlier function's body), then literal
+            // consumers in a later function on early, late and body-defined ones
+            let n = *rng.pick(&[255usize, 256, 257, 1023, 1025, 4095, 4096, 4097, 4100, 5000, 65_535, 65_537]);
+            let n = if n > 10_000 && !rng.chance(1, 4) { 4097 + rng.below(64) } else { n };
+            let mut model = TypeModel::new();
+            let tys = [NumTy::Int(64, false), NumTy::Int(32, true), NumTy::Float(64), NumTy::Int(16, false), NumTy::Int(64, true)];
+            let mut tids = vec![];
+            for t in tys.iter() {
+                let tid = fresh();
+                let inst = match t {
+                    NumTy::Int(w, s) => AInst::named("TypeInt", None, Some(tid), vec![lit(*w), lit(*s as u32)]),
+                    NumTy::Float(w) => AInst::named("TypeFloat", None, Some(tid), vec![lit(*w)]),
+                };
+                model.observe(&inst);
+                v.push(inst);
+                tids.push(tid);
+            }
+            let in_body = rng.below(n + 1).min(n / 2 + rng.below(8));
+            let mut vals: Vec<u32> = vec![];
+            for _ in 0..n - in_body {
+                let c = fresh();
+                let inst = AInst::named(if rng.chance(1, 2) { "Undef" } else { "ConstantNull" }, Some(*rng.pick(&tids)), Some(c), vec![]);
+                model.observe(&inst);
+                v.push(inst);
+                vals.push(c);
+            }
+            let (f, l) = (fresh(), fresh());
+            open_fn(&mut v, f, l);
+            let mut body_vals: Vec<u32> = vec![];
+            for _ in 0..in_body {
+                let c = fresh();
+                let inst = AInst::named("Undef", Some(*rng.pick(&tids)), Some(c), vec![]);
+                model.observe(&inst);
+                v.push(inst);
+                body_vals.push(c);
+            }
+            close_fn(&mut v);
+            let (f2, l2) = (fresh(), fresh());
+            open_fn(&mut v, f2, l2);
+            let mut first = true;
+            let mut picks: Vec<u32> = vec![];
+            for src in [&vals, &body_vals] {
+                if let (Some(a), Some(b)) = (src.first(), src.last()) {
+                    picks.extend([*a, *b, *rng.pick(src)]);
+                }
+            }
+            for sel in picks {
+                if !first {
+                    v.push(AInst::named("Label", None, Some(fresh()), vec![]));
+                }
+                first = false;
+                let mut ops = vec![AOp::id(sel), AOp::id(fresh())];
+                for _ in 0..rng.range(1, 3) {
+                    if let Some(val) = literal_for(&model, sel, rng) {
+                        ops.push(AOp { kind: K::LiteralContextDependentNumber, val });
+                        ops.push(AOp::id(fresh()));
+                    }
+                }
+                v.push(AInst::named("Switch", None, None, ops));
+            }
+            v.push(AInst::named("FunctionEnd", None, None, vec![]));
+            (format!("{} typed values ({} inside an earlier function's body), switches in a later function", n, in_body), v)
         }
         9 => {
             // linkage: declarations (functions without a body) and definitions in any arrangement, some of
